@@ -23,7 +23,10 @@ NoneIff == \A i \in 1..Len(Tr.cls) : (Tr.cls[i] = "none") <=> ~Greater(new, old)
 MostSig == Classify(new, old) \in {"major", "minor", "patch"}
              => \A i \in 1..Len(Tr.cls) : Tr.cls[i] = Classify(new, old)
 
+\* the same version spelled with four release components, and with its trailing zero components dropped
+RoundTripOtherLengths == \A i \in 1..Len(Tr.rt_other) : Tr.rt_other[i] = 1
 Clause == IF ~RoundTripPep THEN "pep440_roundtrip"
+          ELSE IF ~RoundTripOtherLengths THEN "pep440_roundtrip_other_release_length"
           ELSE IF ~RoundTripSem THEN "semver_roundtrip"
           ELSE IF ~NoneIff THEN "none_iff_not_greater"
           ELSE IF ~MostSig THEN "most_significant_component"
